@@ -512,6 +512,41 @@ pub fn c15a_case(ex: &mut Expander, tape: &Vec<u32>, st: &mut Stats) -> Result<(
                 shapes.insert("assoc-partial-use");
             }
         }
+        // every `InterfaceMessagesApi` impl must hand the associated types to the message type
+        // in the order of the type's own parameter list (positional agreement, not only as sets)
+        for it in items {
+            let syn::Item::Impl(im) = it else { continue };
+            if !im.trait_.as_ref().map(|t| proj::ts(&t.1).ends_with("InterfaceMessagesApi")).unwrap_or(false) {
+                continue;
+            }
+            for ii in &im.items {
+                let syn::ImplItem::Type(t) = ii else { continue };
+                let Some(kind) = Kind::ENUMS.into_iter().find(|k| k.accessor() == t.ident.to_string()) else { continue };
+                let tname = format!("{}{}", iface.trait_name, kind.msg_ty());
+                let Some(info) = proj::type_info(items, &tname) else { continue };
+                let syn::Type::Path(tp) = &t.ty else { continue };
+                let Some(last) = tp.path.segments.last() else { continue };
+                let syn::PathArguments::AngleBracketed(ab) = &last.arguments else { continue };
+                let args: Vec<String> = ab.args.iter().map(|a| proj::ts(a)).collect();
+                if args.len() != info.generics.len() {
+                    continue;
+                }
+                for (pos, a) in args.iter().enumerate() {
+                    let toks: Vec<&str> = a.split(|c: char| !c.is_alphanumeric() && c != '_').filter(|x| !x.is_empty()).collect();
+                    let named: Vec<String> = (0..iface.assoc.len()).map(|k| iface.assoc_name(k)).filter(|n| toks.contains(&n.as_str())).collect();
+                    if named.len() == 1 && named[0] != info.generics[pos] {
+                        return Err(viol(
+                            format!("alias-order-iface:{}", kind.attr()),
+                            "an InterfaceMessagesApi alias passes the associated types in another order than the message type declares its parameters",
+                            json!({"alias": proj::ts(&t.ty), "type_parameters": info.generics, "program": p}),
+                        ));
+                    }
+                }
+                if args.len() >= 2 {
+                    shapes.insert("iface-alias-two-parameters");
+                }
+            }
+        }
     }
     let nested = p.contract.methods.iter().any(|m| m.args.iter().any(|a| a.ty.depth() > 0 && { let mut u = vec![]; a.ty.params_used(&mut u); !u.is_empty() }));
     let resp_only = p.contract.methods.iter().any(|m| matches!(m.resp, RespTy::Param(_)) && m.kind() == Some(Kind::Query));
